@@ -52,13 +52,23 @@ theorem load_lists_newest_n_of_a_chain {id : Nat} {c : List Entry} (hc : IsChain
       values s'.log = if n ≤ 0 then c else c.drop (c.length - min n.toNat c.length) :=
   load_single_head_chain hc acl hacc s hd hlog hl hr fetch n j hf hj
 
-/-- **no limit value makes loading one head panic** (partial: one head; closed log — in
-particular a fresh store — or a log already holding `amount` entries) -/
-theorem load_one_head_never_panics_partial {U : List Entry} (hU : HashDet U) (hT : TieFree U) (hM : ClockMono U)
-    (acl : Acl) (fetch : Nat → OMap) (amount : Int) {L : Log} (h : Nat) (hG : Good U L)
-    (hF : Fetched U L (fetch h)) (hC : Closed L ∨ amount ≤ L.entries.length) :
+/-- **no limit value makes loading one head panic**: for EVERY log the store may hold — closed or
+with holes, fully or partially loaded, whatever its heads and link index — every fetched log and every
+amount (after the `fix:` commit, finding F30: the merge asks for no trim; the trim is only asked for
+once the listing is known to be longer than the amount). The statement used to need
+`Closed L ∨ amount ≤ |L|`; the excluded case was real. -/
+theorem load_one_head_never_panics (acl : Acl) (fetch : Nat → OMap) (amount : Int) (L : Log) (h : Nat) :
     loadHead acl fetch amount L h ≠ .error .panic :=
-  loadHead_no_panic hU hT hM acl fetch amount h hG hF hC
+  loadHead_never_panics acl fetch amount L h
+
+/-- Refutation witness for the tree before that repair: a store that holds `c3` without its parents
+(a log with a hole) and is asked to `Load(3)` estimated 4 merged entries, asked `Join` to keep 3, and
+`Join` — which stops at the held `c3` — listed 2: `tmp[len(tmp)-3:]` panicked. Reproduced on the real
+store by a `Load(n)` on an open, partially loaded store (corpus/C15/f30). -/
+theorem estimated_trim_panicked_on_a_log_with_holes_before_the_fix :
+    LoadExample.isPanic (loadHead0 LoadExample.acl (fun _ => [LoadExample.c4, LoadExample.c3, LoadExample.c2, LoadExample.c1]) 3 LoadExample.held 4) = true ∧
+    loadHead LoadExample.acl (fun _ => [LoadExample.c4, LoadExample.c3, LoadExample.c2, LoadExample.c1]) 3 LoadExample.held 4 ≠ .error .panic :=
+  ⟨LoadExample.loadHead0_panic_nonclosed.1, loadHead_never_panics _ _ _ _ _⟩
 
 /-- Refutation witness for the pinned tree (finding F11, repaired): on a 3-chain, `Load(4)` panicked
 and `Load(0)` emptied the log; after the repair both list the 3 entries. (corpus/C15) -/
